@@ -230,7 +230,7 @@ fn signature(_: &Case, msg: &str) -> String {
 
 pub fn run(ctx: &Ctx, rep: &mut Report) {
     rep.rule = "generated (F, T, Z, N, Al, data): Al in {1,2,3,4,8}, T/Al in 1..=24, N in 1..=T/Al, Kt in 1..=90, Z in 1..=min(Kt,12), F=(Kt-1)*T+r, biased to Kt mod Z != 0 and (T/Al) mod N != 0; data position-coded or random. Plus an exhaustive sweep of all (Kt <= 8 quick / 20 thorough, Z <= Kt, T/Al <= 5 quick / 8 thorough, N <= T/Al, Al in {1,4}). Oracle: reference layout by index formula (Partition, block/sub-block/symbol offsets) for every source packet's (SBN, ESI, payload); partition() and calculate_block_offsets() against the reference; then the decoder is fed all source packets, an erasure pattern + repair packets, and one block decoder, and must return the object. Non-trivial = N>1 with TL != TS, or Z>1 with KL != KS, or F mod T != 0; distinct by (F,T,Z,N,Al).".into();
-    let n = ctx.tier.pick(20_000u64, 400_000);
+    let n = ctx.tier.pick(200_000u64, 2_000_000);
     rep.absorb("generated", run_sharded("C05", "generated", ctx.seed, n, 32, strategy, check, to_json, signature));
     // exhaustive small sweep
     let (kt_max, tu_max) = match ctx.tier {
